@@ -87,6 +87,18 @@ inline void fill_static_for(int shape, const std::vector<long>& slots, const std
     case hx::SO_BASE + 3:
         fill_static<hx::SO_BASE + 3>(slots, strides);
         break;
+    case hx::SO_BASE + 4:
+        fill_static<hx::SO_BASE + 4>(slots, strides);
+        break;
+    case hx::SO_BASE + 5:
+        fill_static<hx::SO_BASE + 5>(slots, strides);
+        break;
+    case hx::SO_BASE + 6:
+        fill_static<hx::SO_BASE + 6>(slots, strides);
+        break;
+    case hx::SO_BASE + 7:
+        fill_static<hx::SO_BASE + 7>(slots, strides);
+        break;
     }
 }
 
@@ -240,7 +252,9 @@ inline void check_offsets(const rx::Registry& r, std::vector<Viol>& out) {
 // method 1 is an ordinary unary method so that slots are not all zero
 template<class F>
 void for_each_offsets_registry(const SpaceSpec& sp, F&& f) {
-    int shape = hx::SO_BASE + sp.k - 1;
+    // vp=1: the same arities with virtual_ptr parameters (V, RV, VRV, RVRV)
+    int shape = hx::SO_BASE + sp.k - 1 +
+        (sp.kv.count("vp") && atoi(sp.kv.at("vp").c_str()) ? 4 : 0);
     int extra = hx::shape_index("R");
     for (int n = sp.nlo; n <= sp.nhi; ++n)
         rx::for_each_poset(n, [&](const rx::Poset& po) {
